@@ -186,8 +186,12 @@ def run_table(ctx, cid, bt, rng, maxlen, sample_big=False):
     n = gen.bt_nbins(bt)
     P = gen.gen_pixels(rng, n, True, ["sparse30", "dense", "sparse70", "emptyrows"][int(rng.integers(4))])
     path = ctx.path()
-    make_cooler(path, bt, P)
-    clr = cooler.Cooler(path)
+    group = "/" if rng.random() < 0.6 else "/nested/grp"
+    uri = path + ("::" + group if group != "/" else "")
+    if group != "/" and rng.random() < 0.5:
+        make_cooler(path, [["rootchrom", [0, 7, 14]]], {(0, 1): 9})   # another collection sits at the root
+    make_cooler(uri, bt, P, mode="a")
+    clr = cooler.Cooler(uri)
     D = model.dense(P, n, True)
     pix_rows = [(k, i, j, P[(i, j)]) for k, (i, j) in enumerate(sorted(P))]
     bins = gen.bt_frame(bt, categorical=True)
@@ -195,7 +199,8 @@ def run_table(ctx, cid, bt, rng, maxlen, sample_big=False):
     gs = GenomeSegmentation(cs, bins)
     grouped = bins.groupby("chrom", observed=True)
     with ctx.case(cid, {"bt": bt, "nnz": len(P)}) as c:
-        c.feature("binsize:fixed" if clr.binsize is not None else "binsize:variable")
+        c.feature("binsize:fixed" if clr.binsize is not None else "binsize:variable",
+                  "location:root" if group == "/" else "location:nested-group")
         if gen.bt_fixed_width(bt) is None and clr.binsize is not None:
             c.feature("trap-table-reported-fixed")
         nreg = 0
